@@ -21,7 +21,7 @@ PROPS["C08"] = {
 PROPS["C13"] = {
     "deps": ["Proofs/PoolReach.vo"],
     "props": "Props/C13.v",
-    "suites": [("pool", 600, 20000), ("walk", 600, 12000)],
+    "suites": [("pool", 600, 20000), ("pool_exh", 0, 37448), ("walk", 600, 12000)],
     "assumptions": ["std HashMap and BinaryHeap behave as a finite map and a priority queue (which order the heap extracts is fixed by the pool correspondence, not assumed)",
                     "Rnum::try_from agrees with `n < 100` (theorem C18_rnum_try_from_exact)"],
 }
@@ -108,14 +108,14 @@ PROPS["C04"] = {
     "deps": ["Proofs/Reading.vo", "Proofs/C09_Final.vo", "Proofs/ReaderSafe.vo"],
     "props": "Props/C04.v",
     "probes": [{"file": "Probes/Reading.v"}],
-    "suites": [("reader", 1600, 60000)],
+    "suites": [("reader", 1600, 40000), ("reader_exh", 0, 22621)],
     "assumptions": ["UTF-8 decoding (str::chars) is std; the model's input is the list of code points"],
 }
 PROPS["C05"] = {
     "deps": ["Proofs/Reading.vo"],
     "props": "Props/C05.v",
     "probes": [{"file": "Probes/Reading.v", "filter": lambda name: name.startswith("C04.token_")}],
-    "suites": [("reader", 1600, 60000)],
+    "suites": [("reader", 1600, 40000), ("reader_exh", 0, 22621)],
     "assumptions": ["cursors count characters, not bytes (Scanner collects chars())"],
 }
 
